@@ -72,9 +72,12 @@ namespace occa {
   }
 
   memoryPool& memoryPool::swap(memoryPool &m) {
-    modeMemoryPool_t *modeMemoryPool_ = modeMemoryPool;
-    modeMemoryPool   = m.modeMemoryPool;
-    m.modeMemoryPool = modeMemoryPool_;
+    // Each handle is an entry in the reference ring of the object it points to,
+    // so the handles have to be re-registered, not only the pointers exchanged.
+    // The temporary keeps our object alive while it has no other reference.
+    memoryPool tmp(*this);
+    setModeMemoryPool(m.modeMemoryPool);
+    m.setModeMemoryPool(tmp.modeMemoryPool);
     return *this;
   }
 
